@@ -8,6 +8,27 @@ ASSUMPTIONS = [
 ]
 
 CONF = {
+    "C10": {
+        "rule": "(a) bounded-exhaustive: all 4^4 assignments of owner/attester-manager/pauser/token-controller over 4 accounts x pending owner in {absent, each account} x 18 privileged types (valid arguments) x 4 submitters, each run through the real message router on a branch of the committed state that is diffed and discarded; oracle: success <=> submitter holds the matching role, failure => no store changed; (b) rapid histories of role changes and privileged actions over a 7-account universe (previous holders arise naturally); non-trivial = submitter is authorised, or holds another role, or is a previous holder; distinct by (roles, pending, type, submitter) resp. (class, type, submitter)",
+        "quick": {"rapid": [("TestC10", 300, 1)], "plain": ["TestC10Enum"]},
+        "thorough": {"rapid": [("TestC10", 2000, 16)], "plain": ["TestC10Enum"]},
+        "exhaustive_note": "enumeration part is complete for the stated bound",
+    },
+    "C11": {
+        "rule": "(a) rapid histories (4..30 ops) of role transactions by all accounts with new-holder strings {universe account, fresh valid, upper-case bech32, wrong prefix, bad checksum, empty, long, non-ASCII} interleaved with all other transaction types; lifecycle automaton vs exported roles and pending-owner slot after every transaction; (b) bounded-exhaustive closure: all 324 role states over 3 accounts x every role action by every account; non-trivial = history with a supersession, an accept after the slot was cleared, or an accept attempt by the current owner",
+        "quick": {"rapid": [("TestC11", 600, 1)], "plain": ["TestC11Closure"]},
+        "thorough": {"rapid": [("TestC11", 3000, 16)], "plain": ["TestC11Closure"]},
+    },
+    "C12": {
+        "rule": "rapid histories (4..30 ops): flag states installed by genesis (all four) and moved by pause/unpause transactions of all accounts; the eight user-facing flows with otherwise valid generated inputs; all 18 admin actions; table oracle (S/R blocks all eight; B/M blocks deposit, deposit-with-caller, replace-deposit, module receive only) in both directions, flag queries after every transaction; all 32 cells must be visited in every run; non-trivial = (flag state, flow, outcome) cell; distinct by cell",
+        "quick": {"rapid": [("TestC12", 400, 1)]},
+        "thorough": {"rapid": [("TestC12", 2500, 16)]},
+    },
+    "C13": {
+        "rule": "(a) closure by enumeration: every non-empty subset of a 4-key universe x threshold 1..n as genesis, every action (enable k, disable k, update 0..5, by manager and by a non-manager) through the real router, successors added until closed; reference transition function + invariant; (b) rapid histories (4..40 ops) over 8 keys x 6 spellings with decoys; non-trivial = transition on a boundary (n=t, n=1, t'=n, t'=n+1, t'=t, duplicate enable, unknown disable)",
+        "quick": {"rapid": [("TestC13", 300, 1)], "plain": ["TestC13Closure"]},
+        "thorough": {"rapid": [("TestC13", 3000, 16)], "plain": ["TestC13Closure"]},
+    },
     "C04": {
         "rule": "rapid-generated L2 histories (3..30 ops mixing receives, replays, sends, deposits, both replacements, all 18 admin types, ledger changes, multi-message transactions, injected mint faults); amounts from {1,2^64-1,2^64,2^64+1,2^128,2^255,2^256-1,random}, recipients zero-padded / high bytes non-zero / equal to sender; pairs linked by transaction and through genesis with upper-case local token; both ledger denom modes; oracle: ledger call log + typed events vs the independently decoded message, running total minted vs sum of accepted burn messages; non-trivial = accepted burn message with amount >= 2^64 or recipient high bytes non-zero or recipient != sender; distinct by (amount, recipient, sender)",
         "quick": {"rapid": [("TestC04", 400, 1)]},
@@ -53,6 +74,30 @@ CONF = {
 ALL = ["C%02d" % i for i in range(1, 21)]
 
 MANIFEST_TEXT = {
+    "C10": {
+        "technique": "bounded-exhaustive enumeration (256 role assignments x 5 pending values x 18 types x 4 submitters) through the real message router with full store diff, plus model-based stateful PBT (rapid) over role-change histories",
+        "level": "Exploration, exhaustive for the stated finite bound (4 accounts), sampled beyond it.",
+        "note": "A1 submitter = `from`; role slots installed through genesis, pending owner by a real UpdateOwner.",
+        "ref": "DESIGN.md section 3 C10",
+    },
+    "C11": {
+        "technique": "model-based stateful PBT (rapid) against the ownership lifecycle automaton, plus bounded-exhaustive closure of the role-state graph over 3 accounts",
+        "level": "Exploration; the closure is exhaustive over 324 states x all role actions.",
+        "note": "D6: 'syntactically valid address' = accepted by sdk.AccAddressFromBech32.",
+        "ref": "DESIGN.md section 3 C11",
+    },
+    "C12": {
+        "technique": "model-based stateful PBT (rapid) with a blocking-table oracle over the 4x8 flag/flow matrix (every cell required in every run), flag queries after every transaction",
+        "level": "Exploration: all 32 cells visited per run with generated valid inputs, both directions, plus pause/unpause histories.",
+        "note": "Replacement flows may use attested forged originals (A3 lifted) when the chain could not emit one.",
+        "ref": "DESIGN.md section 3 C12",
+    },
+    "C13": {
+        "technique": "closure by enumeration of the attester/threshold state graph (4-key universe) against a reference transition function, plus model-based stateful PBT (rapid) with spelling variants",
+        "level": "Exploration; exhaustive and closed for the 4-key universe.",
+        "note": "Counts attester entries as the statement does (two spellings of a key are two entries).",
+        "ref": "DESIGN.md section 3 C13",
+    },
     "C04": {
         "technique": "model-based stateful PBT (rapid): ledger call log and typed events of every transaction compared with the independently decoded burn message; running-total invariant over histories",
         "level": "Exploration: generated histories with hostile amounts/recipients/denoms; every mint request and event field compared with an independent decoding; conservation invariant after every transaction.",
